@@ -171,6 +171,13 @@ class Builder(object):
   def ceil(self, a): return self.mk("ceil", (a,), None, "F", True)
   def trunc(self, a): return self.mk("trunc", (a,), None, "F", True)
   def sqrt(self, a): return self.mk("sqrt", (a,), None, "F", True)
+  def rsqrt(self, a):
+    """reciprocal square root: an uninterpreted (hash-consed) application - equal arguments give the identical term; only the
+    real relaxation gives it meaning (r > 0, r*r*a = 1).  It has no exact floating-point encoding here."""
+    return self.mk("rsqrt", (a,), None, "F", True)
+  def uf(self, tag, index, args):
+    """element `index` of an uninterpreted tensor function `tag` applied to the tensor with elements `args` (real relaxation only)"""
+    return self.mk("uf", tuple(args), (tag, int(index)), "F", True)
   def fmax(self, a, b): return self.mk("max", (a, b), None, "F", a.nosub and b.nosub)
   def fmin(self, a, b): return self.mk("min", (a, b), None, "F", a.nosub and b.nosub)
   def sign(self, a): return self.mk("sign", (a,), None, "F", True)
